@@ -177,18 +177,6 @@ def report(pid, tier, seed, P, mod, gens, meta, errors, t_start, args, jobs):
     replay_results = {}
     if failed and rc != 3:
         replay_results = run_replayer(pid, mod, failed, seed, tier)
-    # bounded stand-in, always on: the property's native harness searches for a failing input on the real code even when every
-    # obligation is discharged (clauses that no contract covers yet are decided only up to the harness's bound; never counted as proved)
-    bounded = dict(ran=False, found=False)
-    if not failed and rc == 0 and os.path.exists(os.path.join(VERIF, "replay", f"{pid}.py")) and not args.only and not os.environ.get("PYVC_NO_BOUNDED"):
-        pseudo = dict(task="bounded-search", func="<whole property>", name="bounded-native-search", line=0, verdict="none", model=None,
-                      expect="unsat", decisions=[], backend="-", stage="-", kind="bounded", note="")
-        t_b = time.time()
-        rr_b = run_replayer(pid, mod, [pseudo], seed, tier)
-        r_b = rr_b.get(obligation_key(pseudo))
-        bounded = dict(ran=True, found=bool(r_b and r_b.get("found")), wall_s=round(time.time() - t_b, 1))
-        if bounded["found"]:
-            engine_witness.append((dict(pseudo, note="all obligations were discharged: the failing input exercises a clause no contract covers"), r_b["replay"]))
     for m in failed:
         key = obligation_key(m)
         rr = replay_results.get(key)
@@ -203,6 +191,18 @@ def report(pid, tier, seed, P, mod, gens, meta, errors, t_start, args, jobs):
             violations.append((m, path, " no-failing-input-found"))
         else:
             undecided.append(m)
+    # bounded stand-in, always on: the property's native harness searches for a failing input on the real code even when every
+    # obligation is discharged (clauses that no contract covers yet are decided only up to the harness's bound; never counted as proved)
+    bounded = dict(ran=False, found=False)
+    if not violations and not undecided and rc == 0 and os.path.exists(os.path.join(VERIF, "replay", f"{pid}.py")) and not args.only and not os.environ.get("PYVC_NO_BOUNDED"):
+        pseudo = dict(task="bounded-search", func="<whole property>", name="bounded-native-search", line=0, verdict="none", model=None,
+                      expect="unsat", decisions=[], backend="-", stage="-", kind="bounded", note="")
+        t_b = time.time()
+        rr_b = run_replayer(pid, mod, [pseudo], seed, tier)
+        r_b = rr_b.get(obligation_key(pseudo))
+        bounded = dict(ran=True, found=bool(r_b and r_b.get("found")), wall_s=round(time.time() - t_b, 1))
+        if bounded["found"]:
+            engine_witness.append((dict(pseudo, note="all obligations were discharged: the failing input exercises a clause no contract covers"), r_b["replay"]))
     # a known finding that no longer fails is reported (informational): the entry should become 'fixed'
     printed = set()
     for kf, m in known_hits:
